@@ -4,10 +4,13 @@ import (
 	"bytes"
 	"encoding/json"
 	"fmt"
+	"io"
 	"reflect"
 	"strings"
 
 	"free5gclib/aper"
+	aperlogger "free5gclib/aper/logger"
+	"github.com/sirupsen/logrus"
 	"free5gclib/ngap"
 	"free5gclib/ngap/ngapType"
 
@@ -28,6 +31,9 @@ type ngapCase struct {
 	// Hostile: C04 only — how many truncated / damaged variants of the encoding the decoder is given before the
 	// conformant one (it must refuse or accept them; what matters is the conformant decode afterwards)
 	Hostile int `json:"hostile_before,omitempty"`
+	// Log: logrus level of the APER library's logger while the case is evaluated ("" = its default, info). The
+	// emulator never changes it; the bytes must not depend on it all the same.
+	Log string `json:"aper_log_level,omitempty"`
 	live  interface{}
 }
 
@@ -123,6 +129,7 @@ func genNgapCase(t *rapid.T, allowFragment bool) ngapCase {
 		}
 		c.Ext = g.ExtOutside
 		c.Dirty = g.DirtyBits
+		c.Log = rapid.SampledFrom([]string{"", "", "", "", "", "", "debug", "trace", "error"}).Draw(t, "aper_log_level")
 		if rapid.IntRange(0, 2).Draw(t, "hostile") == 0 {
 			c.Hostile = rapid.IntRange(1, 4).Draw(t, "hostile_n")
 		}
@@ -131,6 +138,29 @@ func genNgapCase(t *rapid.T, allowFragment bool) ngapCase {
 			return c
 		}
 	}
+}
+
+// withAperLogLevel runs f with the APER logger at the given level (output discarded) and restores it.
+func withAperLogLevel(level string, f func()) {
+	lg := aperlogger.AperLog.Logger
+	if lv, err := logrus.ParseLevel(level); err == nil && level != "" {
+		old, oldOut := lg.GetLevel(), lg.Out
+		lg.SetLevel(lv)
+		lg.SetOutput(io.Discard)
+		defer func() { lg.SetLevel(old); lg.SetOutput(oldOut) }()
+	}
+	f()
+}
+
+func withLog(c ngapCase, oracle func(ngapCase) ev.Verdict) (v ev.Verdict) {
+	withAperLogLevel(c.Log, func() { v = oracle(c) })
+	if c.Log != "" {
+		v.Classes = append(v.Classes, "aper-log-level:"+c.Log)
+		if v.Err != nil {
+			v.Key = "loglevel-" + c.Log + ":" + v.Key
+		}
+	}
+	return v
 }
 
 // libEncode: the library's encoder for this entry, with panics turned into errors.
